@@ -1589,9 +1589,14 @@ fn c15(idx: usize, ctx: &Ctx, rpt: &mut Report) {
             json!({"case": wit(), "missing": short(&missing), "extra": short(&extra)}),
         );
     }
-    // Errors (only when nothing is pruned and the window is open: every fault is reached).
+    // Errors (only when nothing is pruned and the window has no maximum: every fault is reached.
+    // A minimum filters entries, not faults — round 9, C15-J — so a re-entrant link above the
+    // minimum is still reported).
     let unpruned = glob.as_ref().map_or(true, |g| g.verif_walk_component_patterns().is_empty());
-    if unpruned && window == (0, None) {
+    if unpruned && window.1.is_none() {
+        if window.0 > 0 {
+            rpt.bucket("link-errors-compared-under-a-minimum-depth");
+        }
         let exp_err = multiset(model.errs().map(|e| e.path.clone()));
         let got_err = err_paths(&obs.items);
         rpt.evaluations += 1;
@@ -1692,7 +1697,7 @@ fn apply_fault(t: &mut TreeSpec, f: &Fault) {
 
 const C20_STACKS: usize = 4;
 
-const C20_DEPTHS: usize = 3;
+const C20_DEPTHS: usize = 4;
 
 /// Number of fault pairs enumerated per base tree: a sample in the quick tier, every unordered
 /// pair of fault sites in the thorough tier.
@@ -1893,7 +1898,11 @@ fn c20(idx: usize, ctx: &Ctx, rpt: &mut Report, enumerated: usize) {
     let (depth, min_depth) = match depth_kind {
         0 => (DepthBehavior::Unbounded, 0usize),
         1 => (wax::walk::DepthMinMax::from_depths_or_max(1, 64), 1usize),
-        _ => (DepthBehavior::Max(wax::walk::DepthMax(64)), 0usize),
+        2 => (DepthBehavior::Max(wax::walk::DepthMax(64)), 0usize),
+        // Round 9 (C15-J, C20-J): a minimum *beneath* some of the faults. A minimum depth filters
+        // entries, not faults: an unreadable directory or a faulty link above the minimum is
+        // still reported.
+        _ => (wax::walk::DepthMin::from_min_or_unbounded(2), 2usize),
     };
     rpt.bucket(&format!("depth-kind:{}", depth_kind));
     let behaviour = WalkBehavior {
@@ -2179,7 +2188,7 @@ impl Monitor for GroupC {
                 level: "fault_enumeration",
                 rule: "enumeration over 4 fixed small trees of every single placement of {unreadable directory (mode 000, walked as uid 65534), dangling link, re-entrant link} x {first, middle, last child; every directory; the root} plus sampled pairs, x both link behaviours x 4 combinator stacks; plus random larger trees with links and unreadable directories. Err items (by path) must equal the model's faults, Ok items the walk of the readable part, and with combinators the item sequence must be a subsequence of the bare walk's that keeps every error item in place. distinct_nontrivial = distinct fault cases with at least one expected fault.",
                 assumptions: &["permission faults require an unprivileged uid (workers re-execute as uid 65534 when started as root)", "directory read order is stable between two walks of the same unchanged tree"],
-                floors: &["faults:some", "faults:none", "faults:several", "faults:unreadable-directory", "stack-kind:0", "stack-kind:3", "link:ReadTarget", "depth-kind:1", "depth-kind:2"],
+                floors: &["faults:some", "faults:none", "faults:several", "faults:unreadable-directory", "stack-kind:0", "stack-kind:3", "link:ReadTarget", "depth-kind:1", "depth-kind:2", "depth-kind:3"],
             },
         }
     }
